@@ -407,9 +407,19 @@ impl Report {
     }
 }
 
-/// The laws every `Iterator` must obey, checked on a factory of fresh iterators over the same sequence:
-/// `count`, `last`, `nth`, the same sequence from every fresh iterator, and what is left after partial consumption. Items are compared through `key`. Err(description) on the first law broken.
+/// The laws every `Iterator` must obey, checked on a factory of fresh iterators over the same sequence: whatever
+/// std adaptor drives the iterator (`count`, `last`, `nth`, `skip`, `step_by`, `by_ref` + `collect`), from a fresh,
+/// a partially consumed or an exhausted iterator, the result is the one the plain `next()` sequence gives, and
+/// nothing panics (`size_hint` is called at every stage for that reason; its numbers are not judged, see DESIGN 13).
+/// Items are compared through `key`. Err(description) on the first law broken.
 pub fn iter_laws_by<T, K: PartialEq + std::fmt::Debug, I: Iterator<Item = T>>(mk: impl Fn() -> I, key: impl Fn(&T) -> K) -> Result<usize, String> {
+    match guard(|| iter_laws_inner(&mk, &key)) {
+        Ok(r) => r,
+        Err(msg) => Err(format!("an iterator method panicked: {}", msg)),
+    }
+}
+
+fn iter_laws_inner<T, K: PartialEq + std::fmt::Debug, I: Iterator<Item = T>>(mk: &impl Fn() -> I, key: &impl Fn(&T) -> K) -> Result<usize, String> {
     let full: Vec<K> = mk().map(|x| key(&x)).collect();
     let n = full.len();
     if mk().count() != n {
@@ -421,18 +431,27 @@ pub fn iter_laws_by<T, K: PartialEq + std::fmt::Debug, I: Iterator<Item = T>>(mk
     }
     let mut it = mk();
     for used in 0..=n {
-        // (size_hint is deliberately not judged: `ClassIdIterator::size_hint` of the unchanged crate does not decrease
-        // while the iterator is consumed; that breaks the std contract but none of the twenty properties)
+        let _ = it.size_hint();
         let x = it.next().map(|x| key(&x));
         if x.as_ref() != full.get(used) {
             return Err(format!("item {} differs between two runs: {:?} vs {:?}", used, x, full.get(used)));
         }
     }
+    // the exhausted iterator: stays exhausted, and every way of asking it for more gives nothing
+    let _ = it.size_hint();
+    if it.next().is_some() {
+        return Err("next() yields an item after it returned None".into());
+    }
+    let _ = it.size_hint();
+    let more: std::collections::VecDeque<K> = it.by_ref().map(|x| key(&x)).collect();
+    if !more.is_empty() || it.by_ref().count() != 0 || it.nth(0).is_some() || it.last().is_some() {
+        return Err("the exhausted iterator yields items through collect / count / nth / last".into());
+    }
     let l = mk().last().map(|x| key(&x));
     if l.as_ref() != full.last() {
         return Err(format!("last() = {:?} but the last collected item is {:?}", l, full.last()));
     }
-    for k in [0, 1, n / 2, n.saturating_sub(1), n, n + 1] {
+    for k in [0, 1, n / 2, n.saturating_sub(1), n, n + 1, n + 7, usize::MAX] {
         let got = mk().nth(k).map(|x| key(&x));
         if got.as_ref() != full.get(k) {
             return Err(format!("nth({}) = {:?} but item {} is {:?}", k, got, k, full.get(k)));
@@ -440,23 +459,47 @@ pub fn iter_laws_by<T, K: PartialEq + std::fmt::Debug, I: Iterator<Item = T>>(mk
         // what is left after nth(k)
         let mut it = mk();
         let _ = it.nth(k);
-        let rest = it.count();
-        if rest != n.saturating_sub(k + 1) {
-            return Err(format!("after nth({}) of {} items, count() = {}", k, n, rest));
+        let _ = it.size_hint();
+        let rest: Vec<K> = it.by_ref().map(|x| key(&x)).collect();
+        let want = if k < n { &full[k + 1..] } else { &full[n..] };
+        if rest[..] != *want {
+            return Err(format!("after nth({}) of {} items the rest is {:?}, expected {:?}", k, n, rest, want));
+        }
+        if it.nth(0).is_some() {
+            return Err(format!("nth(0) after nth({}) and exhaustion yields an item", k));
+        }
+        // skip(k) as an adaptor
+        let sk: Vec<K> = mk().skip(k).map(|x| key(&x)).collect();
+        if sk[..] != full[k.min(n)..] {
+            return Err(format!("skip({}) yields {:?}, expected {:?}", k, sk, &full[k.min(n)..]));
         }
     }
-    for j in [1, n / 2] {
+    for step in [2usize, 3] {
+        let got: Vec<K> = mk().step_by(step).map(|x| key(&x)).collect();
+        let want: Vec<&K> = full.iter().step_by(step).collect();
+        if got.len() != want.len() || got.iter().zip(want.iter()).any(|(a, b)| a != *b) {
+            return Err(format!("step_by({}) yields {:?}, expected {:?}", step, got, want));
+        }
+    }
+    for j in [1, n / 2, n] {
         if j <= n {
             let mut it = mk();
             for _ in 0..j {
                 let _ = it.next();
             }
+            let _ = it.size_hint();
             let c = it.count();
             if c != n - j {
                 return Err(format!("after {} next() calls out of {}, count() = {}", j, n, c));
             }
-            if mk().skip(j).next().map(|x| key(&x)).as_ref() != full.get(j) {
-                return Err(format!("skip({}).next() is not item {}", j, j));
+            let mut it = mk();
+            for _ in 0..j {
+                let _ = it.next();
+            }
+            let l = it.last().map(|x| key(&x));
+            let want = if j < n { full.last() } else { None };
+            if l.as_ref() != want {
+                return Err(format!("after {} next() calls out of {}, last() = {:?}", j, n, l));
             }
         }
     }
